@@ -203,7 +203,7 @@ Definition C03_full (M : edif_pipeline) : Prop :=
                  elab M d = Some n' /\ same_struct M n n'.
 
 (* ------------------------------------------------------------------------------------------ *)
-(* THE WHOLE-FILE WRITER (Fmt/EdifEmit.emit_file : timestamp -> program metadata -> nvfile -> document,
+(* THE WHOLE-FILE WRITER (Fmt/EdifEmit.emit_file : timestamp -> program metadata -> float properties -> nvfile -> document,
    construct by construct after ComposeEdif; tied to the real composer on every run by
    harness/edif_emit.py: the file the composer wrote == emit_file of the value of the netlist)
    composed with the whole-file READER (Fmt/EdifFile.elab_file, Props/C05.v). *)
@@ -216,14 +216,14 @@ From SV Require Import Fmt.EdifFile Fmt.EdifEmit Proofs.EdifEmitProofs.
    instances (references, properties), cables with the same pins wire by wire, the same top
    instance, all names and identifiers; only the view is now called "netlist" and every bus carries
    the array flag (Fmt/EdifNets.norm_entry) *)
-Theorem C03_emit_roundtrip_checked : forall ts prog n, rt_check ts prog n = true ->
-  exists d, emit_file ts prog n = EmOk d /\ sexp_ok d = true /\ elab_file d = Ok (norm_file n).
+Theorem C03_emit_roundtrip_checked : forall ts prog fl n, rt_check ts prog fl n = true ->
+  exists d, emit_file ts prog fl n = EmOk d /\ sexp_ok d = true /\ elab_file d = Ok (norm_file n).
 Proof. exact rt_check_sound. Qed.
 Print Assumptions C03_emit_roundtrip_checked.
 
 (* ... from CHARACTERS: the text printed for the document, tokenized by the tokenizer model and read *)
-Theorem C03_emit_roundtrip_text_checked : forall ts prog n, rt_check ts prog n = true ->
-  exists t, emit_text ts prog n = EmOk t /\ elab_text t = Ok (norm_file n).
+Theorem C03_emit_roundtrip_text_checked : forall ts prog fl n, rt_check ts prog fl n = true ->
+  exists t, emit_text ts prog fl n = EmOk t /\ elab_text t = Ok (norm_file n).
 Proof. exact rt_check_text. Qed.
 Print Assumptions C03_emit_roundtrip_text_checked.
 
@@ -233,9 +233,9 @@ Proof. exact file_eqb_eq. Qed.
 Print Assumptions C03_value_equality_decided.
 
 (* the timestamp is a parameter of the document only: it never decides whether a file is written *)
-Theorem C03_emit_timestamp_irrelevant : forall ts ts' prog n d, emit_file ts prog n = EmOk d ->
+Theorem C03_emit_timestamp_irrelevant : forall ts ts' prog fl n d, emit_file ts prog fl n = EmOk d ->
   Forall (fun a => atom_ok a = true) ts' -> List.length ts' = List.length ts ->
-  exists d', emit_file ts' prog n = EmOk d'.
+  exists d', emit_file ts' prog fl n = EmOk d'.
 Proof. exact emit_timestamp_only. Qed.
 Print Assumptions C03_emit_timestamp_irrelevant.
 
@@ -243,6 +243,9 @@ Print Assumptions C03_emit_timestamp_irrelevant.
    forms, a bus with lower index 2: it is writable, passes the checker, and this is its text *)
 Example C03_emit_roundtrip_example : ltac:(let t := type of emit_roundtrip_example in exact t).
 Proof. exact emit_roundtrip_example. Qed.
+(* a float property (parameter [fl] of the writer model) is written as (number (e 25 -10)) *)
+Example C03_emit_float_example : ltac:(let t := type of emit_float_example in exact t).
+Proof. exact emit_float_example. Qed.
 (* outside [writable]: the "&_" bus of C03_refuted_amp_bus as a whole file; the checker says no *)
 Example C03_emit_roundtrip_amp_bus_fails : ltac:(let t := type of emit_roundtrip_amp_bus_fails in exact t).
 Proof. exact emit_roundtrip_amp_bus_fails. Qed.
@@ -254,4 +257,4 @@ Proof. exact emit_roundtrip_amp_bus_fails. Qed.
    implementation reads its own file back to the same netlist; a counterexample is a VIOLATION. *)
 Definition C03_emit_roundtrip_full : Prop := forall ts prog n,
   writable n = true -> params_w ts prog = true ->
-  exists t, emit_text ts prog n = EmOk t /\ elab_text t = Ok (norm_file n).
+  exists t, emit_text ts prog [] n = EmOk t /\ elab_text t = Ok (norm_file n).
